@@ -331,6 +331,8 @@ class PartialModel:
 # PartialModel-specific lookup dicts
 _partials: Dict[Type[PartialFactory], Dict[Type[BaseModel], Type[PartialModel]]] = {}
 _forwardrefs: Dict[Type[PartialFactory], Dict[str, Type[PartialModel]]] = {}
+_unresolved: Dict[Type[PartialFactory], List[Type[PartialModel]]] = {}
+"""Partials that still refer to a partial that was not completed yet."""
 
 
 class PartialFactory:
@@ -522,9 +524,12 @@ class PartialFactory:
             cls.get_partial(model)
         # resolve possible circular references (also in partials completed
         # before that had to wait for this one)
-        for part in list(_forwardrefs[cls].values()):
+        waiting = _unresolved.setdefault(cls, [])
+        waiting.append(partial)
+        for part in list(waiting):
             try:
                 part.update_forward_refs(**_forwardrefs[cls])  # type: ignore
+                waiting.remove(part)
             except NameError:
                 pass  # refers to a partial that is being created further up
         # ----
